@@ -1,8 +1,230 @@
 import Firefly.Gen.C09
-namespace Firefly.C09
-open Firefly.Locked
+import Firefly.Proof.Locked
+import Firefly.Proof.C09Pmm
+import Firefly.Proof.PmmInit
+/-!
+# C09 — Concurrent frame allocation and freeing never duplicates or loses a frame
 
+Statement (properties.jsonl): when many callers allocate and free physical frames at the same time,
+no frame is ever held by two callers at once, every frame freed becomes allocatable again, no call
+blocks forever, and once all callers have stopped the allocator's free/reserved totals equal the
+initial totals adjusted by the frames still held.  For every schedule of concurrent allocate/free
+calls.
+
+Structure of the argument.
+1. `skeletons_disciplined`: the lock-discipline skeletons of `BitmapAllocator.AllocFrame` and
+   `FreeFrame`, **regenerated from the Go source on every run** (`Gen/C09.lean`), pass the checker
+   `disciplined`; `disciplined_sound` says what that means: on every control-flow path, for any
+   number of loop iterations, the method is `Acquire; touches of allocator state; Release` and
+   returns with the lock released.  (`peek` = a read of state written only by `setupPoolBitmaps`
+   during initialisation: `init_only_state`.)
+2. `linearizable`: for any object whose operations have that shape — any shared state, any number
+   of threads, every schedule — the concurrent machine of `Model/Locked.lean` is explained by the
+   sequential run of the operations in the order of their acquires.
+3. Instantiated with the bitmap allocator of C01/C03 (`σ = Pmm.Bitmap`, operations `alloc` /
+   `free f` split into micro-steps) and clients that free only frames they hold:
+   `no_duplicate`, `freed_is_reusable`, `totals_after_quiescence`; `no_deadlock` holds for every
+   object.
+
+Outside the model (trusted): mutual exclusion of the real spinlock (C08), sequentially consistent
+interleaving of the micro-steps (hardware memory ordering, true parallelism: Go memory model,
+DRF-SC), and that the code between `Acquire` and `Release` computes `Pmm.alloc` / `Pmm.free`
+(differential testing, C01/C03 and the sequential part of the C09 harness).  "No call blocks
+forever" is deadlock freedom plus finiteness of every critical section, not starvation freedom.
+-/
+namespace Firefly.C09
+open Firefly.Locked Firefly.Locked.Pmm Firefly.Pmm
+
+/-- **disciplined_sound** — if the checker accepts a skeleton then every trace of it, whatever the
+conditions evaluate to and however often the loops iterate, (1) ends by `return` or by reaching the
+end of the body, never by a stray `break`/`continue`; (2) obeys the discipline
+`pre —acquire→ held —touch*→ held —release→ done` and ends in `done` (lock released); (3) apart
+from reads of init-only state it is exactly `acquire, touch, …, touch, release`. -/
+theorem disciplined_sound (s : Skel) (h : disciplined s = true) {tr : List Ev} {x : Exit} (hr : Runs s tr x) :
+    (x = .fall ∨ x = .ret) ∧ wb .pre tr = some .done ∧
+    ∃ k, lockEvents tr = Ev.acq :: (List.replicate k Ev.tch ++ [Ev.rel]) := by
+  unfold disciplined at h
+  cases hc : check s .pre with
+  | none => simp [hc] at h
+  | some o =>
+    simp only [hc, Bool.and_eq_true, Bool.or_eq_true, beq_iff_eq] at h
+    obtain ⟨⟨hf, hb⟩, hcn⟩ := h
+    obtain ⟨q, hw, hat⟩ := check_sound hr .pre o hc
+    have hq : (x = .fall ∨ x = .ret) ∧ q = .done := by
+      cases x with
+      | fall =>
+        simp only [Outs.at] at hat
+        rcases hf with hf | hf
+        · rw [hf] at hat; cases hat
+        · rw [hf] at hat; injection hat with hat; exact ⟨Or.inl rfl, hat.symm⟩
+      | brk => simp only [Outs.at] at hat; rw [hb] at hat; cases hat
+      | cont => simp only [Outs.at] at hat; rw [hcn] at hat; cases hat
+      | ret => exact ⟨Or.inr rfl, hat⟩
+    obtain ⟨hx, rfl⟩ := hq
+    exact ⟨hx, hw, wb_pre hw⟩
+
+/-- **skeletons_disciplined** — the skeletons extracted from the current source of
+`bitmap_allocator.go` are accepted.  This is the obligation that stops checking when a return path
+loses its `Release`, an access to the bitmap or the counters moves outside the critical section, or
+the lock is taken twice. -/
 theorem skeletons_disciplined :
     disciplined Gen.C09.allocFrameSkel = true ∧ disciplined Gen.C09.freeFrameSkel = true := by decide
+
+/-- functions that run once, before the allocator is shared (`Init → init → setupPoolBitmaps`) -/
+def initFunctions : List String := ["setupPoolBitmaps"]
+
+/-- **init_only_state** — what the two methods read outside the protected set (`peek`: the pools
+slice header, `startFrame`, the error variables) is written, or has its address taken, nowhere in
+package `pmm` except in `setupPoolBitmaps`. -/
+theorem init_only_state : ∀ w ∈ Gen.C09.writers, w.2 ∈ initFunctions := by decide
+
+/-- **linearizable** — for every lock-protected object (any shared state, any operations made of
+finitely many atomic micro-steps, any clients, any number of threads) and every schedule: the
+reachable state is explained by the sequential run of the operations that have acquired so far, in
+acquire order (`Lin`, `Model/Locked.lean`): with the lock free, the shared state and all results are
+those of the sequential run; with the lock held, the holder's operation is the last one and is
+partially executed on top of the sequential run of the others; every operation was issued by its
+client on the history the sequential run gives it. -/
+theorem linearizable {σ ρ O : Type} (S : Sys σ ρ O) (s0 : σ) {s : State σ ρ O} (hr : Reachable S s0 s) :
+    Lin S s0 s := reachable_lin hr
+
+/-- **no_deadlock** — in every reachable state some thread can take a step, unless nobody holds
+the lock and every client is finished; and whoever holds the lock releases it after finitely many
+of its own steps (critical sections are finite lists of micro-steps; the loops of
+`AllocFrame`/`FreeFrame` are bounded by the pool and bitmap sizes, total functions in the model). -/
+theorem no_deadlock {σ ρ O : Type} (S : Sys σ ρ O) (s0 : σ) {s : State σ ρ O} (hr : Reachable S s0 s) :
+    ((∃ i s', step S s i = some s') ∨ (s.holder = none ∧ ∀ i, S.client i (s.threads i).hist = none)) ∧
+    (∀ i, s.holder = some i → ∃ n s', stepN S i n s = some s' ∧ s'.holder = none) := by
+  have hl := reachable_lin hr
+  refine ⟨progress hl, fun i hh => ?_⟩
+  obtain ⟨_, o, _, rem, loc, _, hc, _⟩ := hl.busy i hh
+  obtain ⟨s', h1, h2⟩ := holder_finishes S i rem s o loc hh hc
+  exact ⟨_, s', h1, h2⟩
+
+/-- **no_duplicate** — the concurrent allocator started in a state satisfying the representation
+invariant (C03: `Init` establishes it), any number of threads whose clients free only frames they
+hold, every schedule: in every reachable state no frame is held by two threads, no thread holds a
+frame twice, and every held frame comes from the initially free set. -/
+theorem no_duplicate {client : Nat → List (Op × Scratch) → Option Op} (hwb : WellBehaved client)
+    {s0 : Bitmap} (hI : Inv s0) {s : State Bitmap Scratch Op} (hr : Reachable (pmmSys client) s0 s) :
+    (∀ j k f, f ∈ held s j → f ∈ held s k → j = k) ∧ (∀ j, (held s j).Nodup) ∧
+    (∀ j f, f ∈ held s j → isFree s0 f) := by
+  obtain ⟨pre, _, hh, _, hinv⟩ := reachable_seqInv hwb hI hr
+  unfold held
+  simp only [hh]
+  refine ⟨hinv.disj, hinv.nodup, fun j f hf => ?_⟩
+  exact (hinv.sim.split f).2 (Or.inr ((hinv.mem f).2 ⟨j, hf⟩))
+
+/-- **freed_is_reusable** — whenever nobody is inside the allocator, the representation invariant
+holds and the free set is exactly the initially free frames that no thread holds: a frame that was
+freed (and not handed out again) is free, and as long as such a frame exists `AllocFrame` succeeds. -/
+theorem freed_is_reusable {client : Nat → List (Op × Scratch) → Option Op} (hwb : WellBehaved client)
+    {s0 : Bitmap} (hI : Inv s0) {s : State Bitmap Scratch Op} (hr : Reachable (pmmSys client) s0 s)
+    (hq : s.holder = none) :
+    Inv s.sh ∧ (∀ f, isFree s.sh f ↔ (isFree s0 f ∧ ∀ j, f ∉ held s j)) ∧
+    ((∃ f, isFree s0 f ∧ ∀ j, f ∉ held s j) → ∃ bm' g, alloc s.sh = (bm', some g)) := by
+  obtain ⟨pre, _, hh, hsh, hinv⟩ := reachable_seqInv hwb hI hr
+  have hfree : ∀ f, isFree s.sh f ↔ (isFree s0 f ∧ ∀ j, f ∉ held s j) := by
+    intro f
+    unfold held
+    simp only [hh, hsh hq]
+    constructor
+    · intro hf
+      refine ⟨(hinv.sim.split f).2 (Or.inl hf), fun j hj => ?_⟩
+      exact hinv.sim.disj f ((hinv.mem f).2 ⟨j, hj⟩) hf
+    · rintro ⟨hu, hn⟩
+      rcases (hinv.sim.split f).1 hu with hf | hH
+      · exact hf
+      · obtain ⟨j, hj⟩ := (hinv.mem f).1 hH
+        exact absurd hj (hn j)
+  have hI' : Inv s.sh := by rw [hsh hq]; exact hinv.sim.inv
+  refine ⟨hI', hfree, ?_⟩
+  rintro ⟨f, hf⟩
+  cases ha : alloc s.sh with
+  | mk bm' r =>
+    cases r with
+    | some g => exact ⟨bm', g, rfl⟩
+    | none => exact absurd ((hfree f).2 hf) ((alloc_none hI' ha).2.1 f)
+
+/-- **totals_after_quiescence** — whenever nobody is inside the allocator there is a duplicate-free
+list `H` of exactly the frames held by the threads such that `total` is unchanged,
+`reserved = initial reserved + |H|` (so `total − reserved = initial free − held`), and the number of
+free frames (`stats`: `total − reserved`) plus `|H|` is the initial number of free frames. -/
+theorem totals_after_quiescence {client : Nat → List (Op × Scratch) → Option Op} (hwb : WellBehaved client)
+    {s0 : Bitmap} (hI : Inv s0) {s : State Bitmap Scratch Op} (hr : Reachable (pmmSys client) s0 s)
+    (hq : s.holder = none) :
+    ∃ H : List Nat, H.Nodup ∧ (∀ f, f ∈ H ↔ ∃ j, f ∈ held s j) ∧
+      s.sh.total = s0.total ∧ s.sh.reserved = s0.reserved + H.length ∧ s.sh.reserved ≤ s.sh.total ∧
+      s.sh.total - s.sh.reserved = (s0.total - s0.reserved) - H.length ∧
+      (freeList s.sh).length + H.length = (freeList s0).length := by
+  obtain ⟨pre, _, hh, hsh, hinv⟩ := reachable_seqInv hwb hI hr
+  refine ⟨globalHeld (seqRun (pmmSys client) s0 pre).2, hinv.sim.nodup, ?_, ?_⟩
+  · intro f; unfold held; simp only [hh]; exact hinv.mem f
+  · rw [hsh hq]
+    have h1 := hinv.total
+    have h2 := hinv.reserved
+    obtain ⟨h3, h4⟩ := Firefly.Pmm.stats hinv.sim.inv
+    obtain ⟨h5, h6⟩ := Firefly.Pmm.stats hI
+    refine ⟨h1, h2, h4, by omega, by omega⟩
+
+/-! ## Non-vacuity -/
+
+/-- a method that forgets `Release` on an early return is rejected … -/
+example : disciplined (.block [.acquire, .touch, .ite .skip (.block [.ret]) .skip, .touch, .release, .ret]) = false := by
+  decide
+/-- … so is a read of protected state before `Acquire`, a write after `Release`, and a double acquire -/
+example : disciplined (.block [.touch, .acquire, .touch, .release, .ret]) = false := by decide
+example : disciplined (.block [.acquire, .touch, .release, .touch, .ret]) = false := by decide
+example : disciplined (.block [.acquire, .loop .skip (.block [.acquire, .touch]) .skip, .release, .ret]) = false := by decide
+
+/-- the "frame not managed" path of the generated `FreeFrame` skeleton is a trace -/
+example : Runs (.block [.acquire, .touch, .ite .skip (.block [.release, .peek, .ret]) .skip, .touch, .release, .ret])
+    [.acq, .tch, .rel, .pk] .ret :=
+  Runs.seqFall .acquire (Runs.seqFall .touch (Runs.seqExit
+    (Runs.iteThen .skip (Runs.seqFall .release (Runs.seqFall .peek .ret))) (by decide)))
+
+/-- a loop that iterates once and then returns from inside -/
+example : Runs (.block [.acquire, .loop .peek (.block [.ite .touch .cont .skip, .release, .ret]) .skip, .release, .ret])
+    [.acq, .pk, .tch, .pk, .tch, .rel] .ret :=
+  Runs.seqFall .acquire (Runs.seqExit
+    (Runs.loopIter (tp := []) .peek (Runs.seqExit (Runs.iteThen .touch .cont) (by decide)) (Or.inr rfl) .skip
+      (Runs.loopRet .peek (Runs.seqFall (Runs.iteElse .touch .skip) (Runs.seqFall .release .ret))))
+    (by decide))
+
+/-- two pools (3 and 65 frames), nothing reserved -/
+def exBitmap : Bitmap := bm0 [{ addr := 0x1000, len := 0x3000, typ := 1 }, { addr := 0x10000, len := 65 * 4096, typ := 1 }]
+
+example : Inv exBitmap := bm0_inv (by unfold SortedMap; decide) (by decide)
+
+/-- every thread: allocate, allocate, free the first frame, stop -/
+def exClient : Nat → List (Op × Scratch) → Option Op := fun _ h =>
+  match h with
+  | [] => some .alloc
+  | [_] => some .alloc
+  | [(.alloc, .done (.frame f)), (.alloc, _)] => some (.free f)
+  | _ => none
+
+example : WellBehaved exClient := by
+  intro i h f hc
+  unfold exClient at hc
+  split at hc <;> try (simp at hc)
+  subst hc
+  rename_i r
+  cases r with
+  | done out => cases out <;> simp [heldOf, heldUpd, heldStep]
+  | start => simp [heldOf, heldUpd, heldStep]
+  | scanned _ => simp [heldOf, heldUpd, heldStep]
+  | looked _ => simp [heldOf, heldUpd, heldStep]
+
+/-- threads 0 and 1 interleaved: 1 is inside its second `AllocFrame` (after the scan) while 0 holds
+frames 1 and 3 — a reachable busy state; frames are distinct -/
+example : (runSched (pmmSys exClient) [0, 0, 0, 0, 1, 1, 1, 1, 0, 0, 0, 0, 1, 1] { sh := exBitmap }).map
+    (fun s => (held s 0, held s 1, s.holder, s.sh.reserved)) = some ([3, 1], [2], some 1, 3) := by decide
+
+/-- … and after both threads have finished (each has freed its first frame): 0 holds frame 3, 1 holds
+frame 16, the lock is free and `total − reserved = 68 − 2` -/
+example : (runSched (pmmSys exClient)
+      [0, 0, 0, 0, 1, 1, 1, 1, 0, 0, 0, 0, 1, 1, 1, 1, 1, 1, 1, 1, 0, 0, 0, 0] { sh := exBitmap }).map
+    (fun s => (held s 0, held s 1, s.holder, s.sh.total - s.sh.reserved)) = some ([3], [16], none, 66) := by decide
 
 end Firefly.C09
